@@ -35,12 +35,13 @@ class ODModel:
     def empty(self, eng: Any, st: State) -> tuple[State, Ref]:
         return eng.alloc(st, "od", "OrderedDict", mem=z3.K(V.StrSort, z3.BoolVal(False)),
                          val=z3.K(V.StrSort, z3.IntVal(0)), n=z3.IntVal(0), rank=z3.K(V.StrSort, z3.IntVal(0)),
-                         top=z3.IntVal(0))
+                         top=z3.IntVal(0), mark=z3.IntVal(0), t=z3.IntVal(0))
 
     def make(self, eng: Any, st: State, sort: Sort, name: str) -> tuple[State, Any, list]:
         st, r = eng.alloc(st, "od", "OrderedDict", mem=V.fresh_of_sort(name + ".mem", StrArrBool),
                           val=V.fresh_of_sort(name + ".val", StrArrInt), n=V.fresh_int(name + ".n"),
-                          rank=V.fresh_of_sort(name + ".rank", StrArrInt), top=V.fresh_int(name + ".top"))
+                          rank=V.fresh_of_sort(name + ".rank", StrArrInt), top=V.fresh_int(name + ".top"),
+                          mark=V.fresh_int(name + ".mark"), t=V.fresh_int(name + ".t"))
         return st, r, self.invariant(eng, st, r)
 
     def invariant(self, eng: Any, st: State, r: Ref) -> list:
@@ -48,7 +49,8 @@ class ODModel:
         k = z3.String("k$od")
         k2 = z3.String("k2$od")
         mem, rank, top, n = o.get("mem"), o.get("rank"), o.get("top"), o.get("n")
-        return [n >= 0,
+        # ghost: `mark` is a rank threshold, `t` counts the members with rank > mark (cardinality facts, A-OD)
+        return [0 <= o.get("t"), o.get("t") <= n, o.get("mark") <= top, n >= 0,
                 z3.ForAll([k], z3.Implies(z3.Select(mem, k), z3.And(n >= 1, z3.Select(rank, k) <= top))),
                 z3.ForAll([k, k2], z3.Implies(z3.And(z3.Select(mem, k), z3.Select(mem, k2), k != k2),
                                              z3.Select(rank, k) != z3.Select(rank, k2)))]
@@ -91,7 +93,8 @@ class ODModel:
                 top2 = o.get("top") + 1
                 o2 = o.set("mem", z3.Store(o.get("mem"), kz, z3.BoolVal(True))) \
                       .set("val", z3.Store(o.get("val"), kz, to_z3(v))) \
-                      .set("n", o.get("n") + 1).set("rank", z3.Store(o.get("rank"), kz, top2)).set("top", top2)
+                      .set("n", o.get("n") + 1).set("rank", z3.Store(o.get("rank"), kz, top2)).set("top", top2) \
+                      .set("t", o.get("t") + 1)
                 yield st1.heap_put(r, o2), ("normal",)
 
     def call_method(self, eng: Any, st: State, r: Ref, name: str, args: list, kwargs: dict, node: Any, ctx: Any):
@@ -103,9 +106,16 @@ class ODModel:
             for st1, b in eng.branch(st, z3.Select(o.get("mem"), kz), f"L{_line(node)}move_to_end"):
                 if b:
                     top2 = o.get("top") + 1
-                    yield st1.heap_put(r, o.set("rank", z3.Store(o.get("rank"), kz, top2)).set("top", top2)), None
+                    t2 = o.get("t") + z3.If(z3.Select(o.get("rank"), kz) <= o.get("mark"), 1, 0)
+                    yield st1.heap_put(r, o.set("rank", z3.Store(o.get("rank"), kz, top2)).set("top", top2).set("t", t2)), None
                 else:
                     yield st1, Raised(ExcVal("KeyError"))
+            return
+        if name == "get":
+            kz = to_z3(args[0])
+            default = args[1] if len(args) > 1 else kwargs.get("default")
+            for st1, b in eng.branch(st, z3.Select(o.get("mem"), kz), f"L{_line(node)}od.get"):
+                yield st1, (z3.Select(o.get("val"), kz) if b else default)
             return
         if name == "popitem":
             last = kwargs.get("last", args[0] if args else True)
@@ -122,8 +132,12 @@ class ODModel:
                     order = z3.ForAll([k], z3.Implies(z3.Select(mem, k), z3.Select(rank, k) <= z3.Select(rank, v)))
                 else:
                     order = z3.ForAll([k], z3.Implies(z3.Select(mem, k), z3.Select(rank, v) <= z3.Select(rank, k)))
-                st2 = st1.assume(z3.Select(mem, v), order)
-                o2 = o.set("mem", z3.Store(mem, v, z3.BoolVal(False))).set("n", o.get("n") - 1)
+                # cardinality fact (A-OD): if fewer than n members are above the mark, some member is at or below it,
+                # and the least recently used one certainly is
+                card = z3.Implies(o.get("t") < o.get("n"), z3.Select(rank, v) <= o.get("mark")) if not last else z3.BoolVal(True)
+                st2 = st1.assume(z3.Select(mem, v), order, card)
+                t2 = o.get("t") - z3.If(z3.Select(rank, v) > o.get("mark"), 1, 0)
+                o2 = o.set("mem", z3.Store(mem, v, z3.BoolVal(False))).set("n", o.get("n") - 1).set("t", t2)
                 yield st2.heap_put(r, o2), Tup((v, z3.Select(o.get("val"), v)))
             return
         raise Unsupported(f"OrderedDict.{name}", node)
@@ -228,13 +242,16 @@ class StrModel:
                 return
             sz = to_z3(s)
             sepz = z3.StringVal(sep)
-            for st1, b in eng.branch(st, z3.Contains(sz, sepz), f"L{_line(node)}rpartition"):
+            i = z3.LastIndexOf(sz, sepz)
+            n = z3.Length(sz)
+            for st1, b in eng.branch(st, i >= 0, f"L{_line(node)}rpartition"):
                 if b:
-                    a, c = V.fresh_str("rp_head"), V.fresh_str("rp_tail")
-                    st2 = st1.assume(sz == z3.Concat(a, sepz, c), z3.Not(z3.Contains(c, sepz)))
+                    a, c = z3.SubString(sz, 0, i), z3.SubString(sz, i + 1, n - i - 1)
+                    # A-STR: head ++ sep ++ tail is the string, and the tail is free of the separator
+                    st2 = st1.assume(sz == z3.Concat(a, sepz, c), z3.Not(z3.Contains(c, sepz)), i < n)
                     yield st2, Tup((a, sep, c))
                 else:
-                    yield st1, Tup(("", "", s))
+                    yield st1.assume(z3.Not(z3.Contains(sz, sepz))), Tup(("", "", s))
             return
         if name == "partition":
             (sep,) = args
